@@ -359,8 +359,10 @@ class NetworkGraph(AbstractBaseIR):
 
     def _collect_from_edges(self, edges: list, keys: list):
         data = dict()
-        for source, target, idx in edges:
-            edge = self.edges[(source, target, idx)]
+        for source_node, target, idx in edges:
+            edge = self.edges[(source_node, target, idx)]
+            # edges are grouped per source variable: different variables of one source node are separate inputs
+            source = (source_node, edge.get('source_var'))
             if source not in data:
                 data[source] = dict()
             for key in keys:
@@ -719,7 +721,7 @@ class NetworkGraph(AbstractBaseIR):
         # step 1: collect all inputs
         weights, source_indices, target_indices, sources = [], [], [], []
         edge_irs, edge_var_maps = [], []
-        for snode, sinfo in inputs.items():
+        for (snode, _), sinfo in inputs.items():
             weights.append(sinfo['weight'])
             source_indices.append(sinfo['source_idx'])
             target_indices.append(sinfo['target_idx'])
